@@ -10,28 +10,49 @@ LEVEL = "model_checking"
 TECHNIQUE = "explicit-state BFS over operation histories on real Deferreds + lock-step reference interpreter"
 RULE = ("BFS over histories of {addCallback / addErrback / addBoth / addCallbacks(d_i); pause(d_i); unpause(d_i) "
         "(only after a pause); callback(d_i, fresh); errback(d_i, fresh)} on n real Deferreds.  What a callback "
-        "does (return a fresh value / raise / return a Failure / return d_j, j != i) is chosen when it runs: "
+        "does (return a fresh value / raise / return a Failure / return d_j, j != i; in the re-entrant families "
+        "also: from inside the callback add one plain, logged callback with addCallback / addBoth to its own "
+        "Deferred and then return a value or d_j, or add one to another Deferred d_j and return a value) is "
+        "chosen when it runs: "
         "every operation that makes callbacks run is expanded into one transition per assignment of behaviours "
         "to the callbacks the reference says will run (each callback runs at most once, so this is exactly the "
         "set of programs with behaviours fixed at add time).  After every operation the per-Deferred "
         "invocation log (callback id, input token), every Deferred's current result and the ordered "
-        "not-yet-run callbacks are compared with a recursive reference interpreter written in the check.  "
+        "not-yet-run callbacks are compared with a recursive reference interpreter written in the check; a "
+        "callback that starts while another callback of the same Deferred has not returned is a violation by "
+        "itself.  "
         "States are merged on (real attributes, model state) up to token renaming and permutation of the "
         "Deferreds.  non-trivial = distinct canonical states whose history involved chaining on an "
-        "unfired/paused/waiting Deferred, stealing a result, a continuation, or a late/paused add")
+        "unfired/paused/waiting Deferred, stealing a result, a continuation, a late/paused add, or an add made "
+        "from inside a running callback")
 BOUNDS = {
-    "quick": "10 families, each one complete BFS (n Deferreds / add methods / behaviours besides return-d_j / max "
+    "quick": "13 families, each one complete BFS (n Deferreds / add methods / behaviours besides return-d_j / max "
              "pending pairs per Deferred / depth): 2/ceb/vx/2/9, 2/ceb/vx/3/7, 2/addCallbacks(cb[,eb])/vx/3/8, "
              "2 (Deferred subclass)/cebp/vxf/2/6, 2/b/vx/2/10 with <=4 outstanding pauses, 3/ceb/vx/2/7, "
              "3/cebp/vxf/2/6, 3 (subclass)/cb/vx/2/8 (these three: <=3 pending pairs in total), "
-             "3/b/v/2/10 with <=3 pauses, 4/b/v/1/9; <=2 outstanding user pauses otherwise",
-    "thorough": "9 families: 2/ceb/vx/3/10, 2/addCallbacks/vxf/3/10, 2 (subclass)/cebp/vxf/3/7, 2/b/vx/3/14 with "
+             "3/b/v/2/10 with <=3 pauses, 4/b/v/1/9; re-entrant families (callbacks may add a plain callback from "
+             "inside): 2/cb/vx + add-to-own(addCallback|addBoth) then value|d_j /2/7, 2/cb/v + add-to-own then "
+             "value|d_j + add-to-other(addCallback|addBoth) /2/6, 3/b/v + addBoth-to-own then value|d_j + "
+             "addBoth-to-other /2/7 (<=3 pending pairs in total); re-entrantly added callbacks return a value; "
+             "<=2 outstanding user pauses otherwise",
+    "thorough": "12 families: 2/ceb/vx/3/10, 2/addCallbacks/vxf/3/10, 2 (subclass)/cebp/vxf/3/7, 2/b/vx/3/14 with "
                 "<=5 pauses, 3/ceb/vx/2/9, 3/cebp/vxf/2/7, 3 (subclass)/cb/vx/3/9, 3/b/v/3/14 with <=3 pauses, "
-                "4/b/v/2/10",
+                "4/b/v/2/10; re-entrant families: 2/ceb/vx + add-to-own(addCallback|addBoth) then value|d_j /2/8 "
+                "(added callbacks return or raise), 2/cb/v + add-to-own then value|d_j + add-to-other /2/8, 3/b/v + "
+                "addBoth-to-own then value|d_j + addBoth-to-other /2/9 (<=4 pending pairs in total)",
 }
 ASSUMPTIONS = [
-    "callbacks never fire, pause or add to Deferreds themselves (no re-entrancy: the statement's programs "
-    "fire 'in any order' from top level); a callback never returns the Deferred it is attached to",
+    "callbacks never fire or pause Deferreds themselves (the statement's programs fire 'in any order' from top "
+    "level); the only re-entrancy covered is, in the *-reent families, one addCallback / addBoth per callback "
+    "made from inside it, to its own or to another Deferred, and the callback added that way is not re-entrant "
+    "itself; a callback never returns the Deferred it is attached to",
+    "re-entrant add rule of the reference: a Deferred whose callback is executing does not start another of "
+    "its callbacks -- the added callback is appended and runs after the executing one has returned, with what "
+    "that one returned (or, if it returned a Deferred the chain must wait for, after that wait); an add made "
+    "from inside a callback to a different Deferred is an ordinary add on that Deferred (runs at once iff that "
+    "Deferred is fired, not paused/waiting and not itself inside a callback).  A callback that returns a "
+    "Deferred which is itself inside a callback at that moment has no rule: the search stops there and "
+    "accepts every behaviour",
     "programs that close a waits-on cycle (d_i waits on d_j which transitively waits on d_i) are outside the "
     "statement: the search stops there and accepts every behaviour",
     "reference rules: run pairs in order while not paused; success slot unless the current result is a "
@@ -45,11 +66,13 @@ ASSUMPTIONS = [
     "cross-Deferred interleaving of invocations is not compared (the statement orders callbacks per "
     "Deferred); pause counters are used for state merging only, not for the verdict",
 ]
-MIN = {"quick": {"states": 97000, "nontrivial": 88000, "outcomes": 13, "transitions": 930000},
+MIN = {"quick": {"states": 157000, "nontrivial": 145000, "outcomes": 21, "transitions": 1715000},
        "thorough": {"states": 550000, "nontrivial": 500000, "outcomes": 13, "transitions": 10000000}}
 LEVEL_TEXT = ("every operation history within the bound is executed on real twisted.internet.defer.Deferred "
               "objects and compared, step by step, with an independent recursive interpreter; no sampling")
-LEVEL_NOTE = "no re-entrant callbacks, no self-returning callbacks, no waits-on cycles; small-scope bound"
+LEVEL_NOTE = ("re-entrancy limited to one addCallback/addBoth per callback from inside it (own or other Deferred; "
+              "no firing/pausing from inside callbacks), no self-returning callbacks, no waits-on cycles; "
+              "small-scope bound")
 
 KNOWN_STRANDED = "Deferred:callbacks-stranded-behind-paused-chained-Deferred"
 
@@ -61,7 +84,11 @@ def _fam(n, kinds, behs, pairs, depth, pauses=2, tpairs=99, sub=False, re=(), pb
 
 # one BFS per family (cross-shard splitting of one BFS re-explores most states, measured 6x waste):
 # kinds c=addCallback e=addErrback b=addBoth p=addCallbacks(cb, eb) n=addCallbacks(cb); sub=Deferred subclass;
-# behs v=value x=raise f=return Failure (return d_j is always included); pauses/tpairs are totals over all Deferreds
+# behs v=value x=raise f=return Failure (return d_j is always included); pauses/tpairs are totals over all Deferreds;
+# re = re-entrant behaviours: from inside the callback add one plain callback with addCallback (c) / addBoth (b)
+#      rcv rbv: to the own Deferred, then return a value     rcd rbd: to the own Deferred, then return d_j
+#      ac ab:   to another Deferred d_j, then return a value
+#      pbehs = what the callbacks added that way do when they run (v / x only: no second-order re-entrancy)
 CFG = {
     "quick": {
         "2-deep": _fam(2, "ceb", "vx", 2, 9),
@@ -74,7 +101,9 @@ CFG = {
         "3-cb": _fam(3, "cb", "vx", 2, 8, tpairs=3, sub=True),
         "3-structure": _fam(3, "b", "v", 2, 10, pauses=3),
         "4-structure": _fam(4, "b", "v", 1, 9),
-        "2-reent": _fam(2, "cb", "vx", 2, 6, re=("rcv", "rbv", "rcd", "rbd", "ac", "ab"), pbehs="vx"),
+        "2-reent": _fam(2, "cb", "vx", 2, 7, re=("rcv", "rbv", "rcd", "rbd")),
+        "2-reent-x": _fam(2, "cb", "v", 2, 6, re=("rcv", "rbv", "rcd", "rbd", "ac", "ab")),
+        "3-reent": _fam(3, "b", "v", 2, 7, tpairs=3, re=("rbv", "rbd", "ab")),
     },
     "thorough": {
         "2-deep": _fam(2, "ceb", "vx", 3, 10),
@@ -86,6 +115,9 @@ CFG = {
         "3-cb": _fam(3, "cb", "vx", 3, 9, sub=True),
         "3-structure": _fam(3, "b", "v", 3, 14, pauses=3),
         "4-structure": _fam(4, "b", "v", 2, 10),
+        "2-reent": _fam(2, "ceb", "vx", 2, 8, re=("rcv", "rbv", "rcd", "rbd"), pbehs="vx"),
+        "2-reent-x": _fam(2, "cb", "v", 2, 8, re=("rcv", "rbv", "rcd", "rbd", "ac", "ab")),
+        "3-reent": _fam(3, "b", "v", 2, 9, tpairs=4, re=("rbv", "rbd", "ab")),
     },
 }
 
@@ -140,7 +172,7 @@ class Model:
         self.nt = 0           # Deferreds 0..nt-1 have been touched (symmetry breaking)
         self.ncid = 0
         self.nfire = 0
-        self.open = False     # left the statement's scope (waits-on cycle)
+        self.open = False     # left the statement's scope (waits-on cycle / returned a Deferred that is mid-callback)
         self.strand = set()   # donors whose later callbacks sit behind a still-paused waiter
         self.flags = set()
         self.log = []         # this step: (i, cid, input)
@@ -249,6 +281,7 @@ class Model:
                     # a callback returned a Deferred that is itself in the middle of a callback: the
                     # statement's interpreter has no rule for it; leave the scope (accept everything)
                     self.open = True
+                    self.flags.add("returned-mid-callback-deferred-out-of-scope")
                 if E.fired and E.wait is None and E.upause == 0:
                     self.flags.add("steal-" + ("none" if E.result == ("ok", None) else E.result[0]))
                     D.result = E.result
